@@ -1,0 +1,5 @@
+//! Verification hooks (cargo feature `verif`): add-only re-exports and thin wrappers
+//! that give the out-of-tree verification harness access to crate-private units.
+//! Nothing here changes behaviour; with the feature off this module does not exist.
+
+pub use super::debugee::dwarf::VerifPathSearchIndex as PathSearchIndex;
